@@ -161,8 +161,9 @@ class ParseSource(Contract):
         if r["failures"]:
             return {"reproduced": True, "input": r["failures"][0], "note": "found by probing the real parse_source against the reference parser"}
         return {"reproduced": False, "searched": r["evaluations"], "note": "no disagreement with the reference parser on %d probe texts" % r["evaluations"]}
-    props = ("C01", "C02", "C05", "C06", "C07", "C08", "C09", "C11", "C13", "C14", "C17")
+    props = ("C01", "C02", "C05", "C06", "C07", "C08", "C09", "C11", "C13", "C14", "C17", "C12", "C15", "C03", "C10")
     allow_any_exception = True
+    no_own_raises = True        # rejecting a text is the lexer's and the parser's business (they implement the documented language)
 
     def shapes(self):
         return [Shape("str", lambda p: Args(text=z3.String("text")))]
@@ -482,6 +483,20 @@ class RunExperimentDefault(Contract):
 
 class EvaluatorCall(Contract):
     target = "pyab_experiment.experiment_evaluator:ExperimentEvaluator.__call__"
+
+    def verify(self, mutate=None, tag=""):
+        from vcore.obl import Obl, DISCHARGED, REFUTED
+        obls = Contract.verify(self, mutate, tag)
+        fn = self.fndef(mutate)
+        if fn is not None:
+            a = fn.args
+            named = [x.arg for x in a.args[1:]] + [x.arg for x in a.kwonlyargs]       # positional-only parameters cannot capture a keyword
+            ok = not named and a.kwarg is not None
+            obls.append(Obl(self.short + tag + "/signature(self, **kwargs)", self.target, "frame",
+                            "the entry point has no named parameter besides self: every keyword the caller passes is a FIELD and reaches the compiled function",
+                            status=DISCHARGED if ok else REFUTED, backend="extract", detail="parameters %r, **%s" % (named, a.kwarg.arg if a.kwarg else None),
+                            props=self.props, model=None if ok else {"captured_keywords": named}, replay=self.replay))
+        return obls
     # the public entry point forwards the caller's fields untouched: routing (C02), the key (C12), totality over values (C15) and
     # the equivalence with the generated module text (C14) all go through it
     props = ("C11", "C09", "C01", "C17", "C02", "C12", "C14", "C15")
